@@ -1,7 +1,8 @@
 import FiberModel.C09.SplitLemmas
 /-
-C09 — `fasthttp.VisitHeaderParams` on rendered parameters: it visits the (name, value) pairs of the
-parameters in order, up to the first empty parameter.
+C09 — `forEachParameter` (`scanParams`) on rendered parameters: it visits the (name, value) pairs of
+all non-empty parameters in order, whatever optional whitespace (SP / HTAB) and empty parameters
+stand between them.
 -/
 namespace C09
 open B
@@ -36,25 +37,44 @@ theorem dropWhile_head {p : Nat → Bool} (r : Bytes) (hr : r.head?.all (fun c =
     simp only [List.head?_cons, Option.all_some, Bool.not_eq_true'] at hr
     simp [List.dropWhile_cons, hr]
 
-theorem afterSemi_spaces (sp rest : Bytes) (h : spOnly sp = true) : afterSemi (sp ++ 59 :: rest) = some rest := by
+theorem afterSemi_spaces (sp rest : Bytes) (h : owsOnly sp = true) : afterSemi (sp ++ 59 :: rest) = some rest := by
   induction sp with
   | nil => simp [afterSemi]
   | cons c cs ih =>
-    simp only [spOnly, List.all_cons, Bool.and_eq_true, beq_iff_eq] at h
-    obtain ⟨rfl, hcs⟩ := h
-    simp only [List.cons_append, afterSemi, show ((32 : Nat) == 59) = false by decide, Bool.false_eq_true, if_false]
+    obtain ⟨hc, hcs⟩ := owsOnly_cons h
+    have h59 : (c == 59) = false := by rcases hc with rfl | rfl <;> decide
+    simp only [List.cons_append, afterSemi, h59, Bool.false_eq_true, if_false]
     exact ih hcs
 
-theorem afterSemi_none (sp : Bytes) (h : spOnly sp = true) : afterSemi sp = none := by
+theorem afterSemi_none (sp : Bytes) (h : owsOnly sp = true) : afterSemi sp = none := by
   induction sp with
   | nil => rfl
   | cons c cs ih =>
-    simp only [spOnly, List.all_cons, Bool.and_eq_true, beq_iff_eq] at h
-    obtain ⟨rfl, hcs⟩ := h
-    simp only [afterSemi, show ((32 : Nat) == 59) = false by decide, Bool.false_eq_true, if_false]
+    obtain ⟨hc, hcs⟩ := owsOnly_cons h
+    have h59 : (c == 59) = false := by rcases hc with rfl | rfl <;> decide
+    simp only [afterSemi, h59, Bool.false_eq_true, if_false]
     exact ih hcs
 
-theorem spOnly_all {s : Bytes} (h : spOnly s = true) : s.all (· == 32) = true := h
+theorem owsOnly_all {s : Bytes} (h : owsOnly s = true) : s.all isOWSb = true := h
+
+/-- the scan for the next `;` does not see leading optional whitespace -/
+theorem afterSemi_dropOWS (x : Bytes) : afterSemi (x.dropWhile isOWSb) = afterSemi x := by
+  induction x with
+  | nil => rfl
+  | cons c cs ih =>
+    by_cases hc : isOWSb c = true
+    · have h59 : (c == 59) = false := by rcases isOWSb_iff.1 hc with rfl | rfl <;> decide
+      simp only [List.dropWhile_cons, hc, if_true, afterSemi, h59, Bool.false_eq_true, if_false]
+      exact ih
+    · simp [List.dropWhile_cons, hc]
+
+theorem scanStep_dropOWS (x : Bytes) : scanStep (x.dropWhile isOWSb) = scanStep x := by
+  unfold scanStep; rw [afterSemi_dropOWS]
+
+theorem scanFuel_dropOWS (f : Nat) (x : Bytes) : scanFuel f (x.dropWhile isOWSb) = scanFuel f x := by
+  cases f with
+  | zero => rfl
+  | succ f => simp only [scanFuel, scanStep_dropOWS]
 
 /-! ### quoted values -/
 
@@ -81,29 +101,28 @@ theorem quotedValue_content (s more acc : Bytes) (h : isQuotedContent s = true) 
     rw [ih _ h.2]
     simp
 
-/-! ### the visitor over rendered parameters -/
+/-! ### the scanner over rendered parameters -/
 
-/-- the pairs the visitor reports: parameters in order up to the first empty one -/
+/-- the pairs the scanner reports: all non-empty parameters, in order -/
 def visitedPairs : List Param → Params
   | [] => []
-  | p :: ps => if p.name == [] then [] else (p.name, p.value) :: visitedPairs ps
+  | p :: ps => if p.name == [] then visitedPairs ps else (p.name, p.value) :: visitedPairs ps
 
 theorem renderParams_cons (p : Param) (ps : List Param) : renderParams (p :: ps) = renderParam p ++ renderParams ps := by
   simp [renderParams]
 
-/-- what follows a parameter starts with a space or `;`, or is empty: never a token byte -/
-theorem more_head (ps : List Param) (trail : Bytes) (hps : ∀ p ∈ ps, p.strict) (ht : spOnly trail = true) :
+/-- what follows a parameter starts with optional whitespace or `;`, or is empty: never a token byte -/
+theorem more_head (ps : List Param) (trail : Bytes) (hps : ∀ p ∈ ps, p.strict) (ht : owsOnly trail = true) :
     (renderParams ps ++ trail).head?.all (fun c => !tchar c && !(c == 61)) = true := by
-  have hsp : ∀ (sp r : Bytes), spOnly sp = true → r.head?.all (fun c => !tchar c && !(c == 61)) = true →
+  have hsp : ∀ (sp r : Bytes), owsOnly sp = true → r.head?.all (fun c => !tchar c && !(c == 61)) = true →
       (sp ++ r).head?.all (fun c => !tchar c && !(c == 61)) = true := by
     intro sp r h hr
     cases sp with
     | nil => simpa using hr
     | cons c cs =>
-      simp only [spOnly, List.all_cons, Bool.and_eq_true, beq_iff_eq] at h
-      obtain ⟨rfl, _⟩ := h
+      obtain ⟨hc, _⟩ := owsOnly_cons h
       simp only [List.cons_append, List.head?_cons, Option.all_some]
-      decide
+      rcases hc with rfl | rfl <;> decide
   cases ps with
   | nil =>
     simp only [renderParams, List.map_nil, List.flatten_nil, List.nil_append]
@@ -160,39 +179,47 @@ theorem strict_value {p : Param} (h : p.strict) (hn : p.name ≠ []) :
       exact qvalue_token hq
     · exact hv
 
-/-- first non-space byte after an empty parameter is a `;`, or there is none: no key starts there -/
-theorem more_noKey (ps : List Param) (trail : Bytes) (hps : ∀ p ∈ ps, p.strict) (ht : spOnly trail = true) :
-    ((renderParams ps ++ trail).dropWhile (· == 32)).takeWhile tchar = [] := by
-  cases ps with
-  | nil =>
-    simp only [renderParams, List.map_nil, List.flatten_nil, List.nil_append]
-    have : trail.dropWhile (· == 32) = [] := by
-      have := dropWhile_prefix (p := (· == 32)) trail [] (spOnly_all ht)
-      simpa using this
-    rw [this]; rfl
-  | cons p2 ps2 =>
-    have hp2 := hps p2 (by simp)
-    rw [renderParams_cons]
-    unfold renderParam
-    simp only [List.append_assoc]
-    rw [dropWhile_prefix _ _ (spOnly_all hp2.2.1)]
-    simp [List.dropWhile_cons, List.takeWhile_cons, show tchar 59 = false by decide]
+/-- one loop iteration on `OWS ";" OWS body` looks at `body` -/
+theorem scanStep_at (o1 o2 body : Bytes) (h1 : owsOnly o1 = true) (h2 : owsOnly o2 = true) :
+    scanStep (o1 ++ 59 :: (o2 ++ body)) = scanBody (body.dropWhile isOWSb) := by
+  unfold scanStep
+  rw [afterSemi_spaces _ _ h1]
+  simp only
+  rw [dropWhile_prefix _ _ (owsOnly_all h2)]
 
-theorem visitStep_empty (p : Param) (more : Bytes) (hp : p.strict) (hn : p.name = [])
-    (hmore : (more.dropWhile (· == 32)).takeWhile tchar = []) :
-    visitStep (renderParam p ++ more) = none := by
+/-- an empty parameter followed by another `;` (after optional whitespace): the scan goes on there -/
+theorem scanStep_empty_more (p : Param) (more : Bytes) (hp : p.strict) (hn : p.name = [])
+    (hmore : (more.dropWhile isOWSb).head? = some 59) :
+    scanStep (renderParam p ++ more) = some (none, more.dropWhile isOWSb) := by
   have e : renderParam p ++ more = p.ows1 ++ 59 :: (p.ows2 ++ more) := by
     simp [renderParam, hn, List.append_assoc]
-  rw [e]
-  unfold visitStep
-  rw [afterSemi_spaces _ _ hp.2.1]
-  simp only
-  rw [dropWhile_prefix _ _ (spOnly_all hp.2.2), hmore]
-  simp
+  rw [e, scanStep_at _ _ _ hp.2.1 hp.2.2]
+  unfold scanBody
+  simp [hmore]
 
-theorem visitStep_param (p : Param) (more : Bytes) (hp : p.strict) (hn : p.name ≠ [])
+/-- an empty parameter followed by optional whitespace only: the scan ends -/
+theorem scanStep_empty_last (p : Param) (more : Bytes) (hp : p.strict) (hn : p.name = [])
+    (hmore : more.dropWhile isOWSb = []) :
+    scanStep (renderParam p ++ more) = none := by
+  have e : renderParam p ++ more = p.ows1 ++ 59 :: (p.ows2 ++ more) := by
+    simp [renderParam, hn, List.append_assoc]
+  rw [e, scanStep_at _ _ _ hp.2.1 hp.2.2, hmore]
+  rfl
+
+/-- a token starts with a byte that is neither optional whitespace nor `;` -/
+theorem token_start {s : Bytes} (hne : s ≠ []) (hall : s.all tchar = true) (r : Bytes) :
+    (s ++ r).dropWhile isOWSb = s ++ r ∧ ((s ++ r).head? == some 59) = false := by
+  obtain ⟨c, cs, hcs⟩ := List.exists_cons_of_ne_nil hne
+  have hc : tchar c = true := List.all_eq_true.1 hall c (by simp [hcs])
+  have hn := tchar_ne hc
+  have hows : isOWSb c = false := by simp [isOWSb, hn.1, hn.2.2.2.2.2.2]
+  subst hcs
+  refine ⟨by simp [List.dropWhile_cons, hows], ?_⟩
+  simp [hn.2.1]
+
+theorem scanStep_param (p : Param) (more : Bytes) (hp : p.strict) (hn : p.name ≠ [])
     (hmore : more.head?.all (fun c => !tchar c && !(c == 61)) = true) :
-    visitStep (renderParam p ++ more) = some ((p.name, p.value), more) := by
+    scanStep (renderParam p ++ more) = some (some (p.name, p.value), more) := by
   obtain ⟨hname, hval⟩ := strict_value hp hn
   obtain ⟨hnne, hnall⟩ := token_all hname
   have hn' : (p.name == []) = false := by simpa using hn
@@ -206,23 +233,13 @@ theorem visitStep_param (p : Param) (more : Bytes) (hp : p.strict) (hn : p.name 
     simp only [hq, if_true] at hval
     have e : renderParam p ++ more = p.ows1 ++ 59 :: (p.ows2 ++ (p.name ++ (61 :: 34 :: (p.value ++ 34 :: more)))) := by
       simp [renderParam, hn', hq, List.append_assoc]
-    rw [e]
-    unfold visitStep
-    rw [afterSemi_spaces _ _ hp.2.1]
-    simp only
-    rw [dropWhile_prefix _ _ (spOnly_all hp.2.2)]
-    have hstart : (p.name ++ (61 :: 34 :: (p.value ++ 34 :: more))).dropWhile (· == 32) =
-        p.name ++ (61 :: 34 :: (p.value ++ 34 :: more)) := by
-      apply dropWhile_head
-      obtain ⟨c, cs, hcs⟩ := List.exists_cons_of_ne_nil hnne
-      have hc : tchar c = true := List.all_eq_true.1 hnall c (by simp [hcs])
-      have := (tchar_ne hc).1
-      simp [hcs, this]
+    rw [e, scanStep_at _ _ _ hp.2.1 hp.2.2]
+    obtain ⟨hstart, hsemi⟩ := token_start hnne hnall (61 :: 34 :: (p.value ++ 34 :: more))
     rw [hstart]
+    unfold scanBody
     have hkey : (p.name ++ (61 :: 34 :: (p.value ++ 34 :: more))).takeWhile tchar = p.name :=
       takeWhile_prefix _ _ hnall (by simp; decide)
-    rw [hkey]
-    simp only [hne2, Bool.false_eq_true, if_false, List.drop_left, show tchar 34 = false by decide,
+    simp only [hsemi, Bool.false_eq_true, if_false, hkey, hne2, List.drop_left, show tchar 34 = false by decide,
       beq_self_eq_true, if_true]
     rw [quotedValue_content _ _ _ hval]
     simp
@@ -234,35 +251,39 @@ theorem visitStep_param (p : Param) (more : Bytes) (hp : p.strict) (hn : p.name 
     have hc : tchar c = true := List.all_eq_true.1 hvall c (by simp [hcs])
     have e : renderParam p ++ more = p.ows1 ++ 59 :: (p.ows2 ++ (p.name ++ (61 :: c :: (cs ++ more)))) := by
       simp [renderParam, hn', hq', hcs, List.append_assoc]
-    rw [e]
-    unfold visitStep
-    rw [afterSemi_spaces _ _ hp.2.1]
-    simp only
-    rw [dropWhile_prefix _ _ (spOnly_all hp.2.2)]
-    have hstart : (p.name ++ (61 :: c :: (cs ++ more))).dropWhile (· == 32) = p.name ++ (61 :: c :: (cs ++ more)) := by
-      apply dropWhile_head
-      obtain ⟨d, ds, hds⟩ := List.exists_cons_of_ne_nil hnne
-      have hd : tchar d = true := List.all_eq_true.1 hnall d (by simp [hds])
-      have := (tchar_ne hd).1
-      simp [hds, this]
+    rw [e, scanStep_at _ _ _ hp.2.1 hp.2.2]
+    obtain ⟨hstart, hsemi⟩ := token_start hnne hnall (61 :: c :: (cs ++ more))
     rw [hstart]
+    unfold scanBody
     have hkey : (p.name ++ (61 :: c :: (cs ++ more))).takeWhile tchar = p.name :=
       takeWhile_prefix _ _ hnall (by simp; decide)
-    rw [hkey]
     have htw : (c :: (cs ++ more)).takeWhile tchar = c :: cs := by
       have := takeWhile_prefix (p := tchar) (c :: cs) more (by rw [← hcs]; exact hvall) hnotT
       simpa using this
-    simp only [hne2, Bool.false_eq_true, if_false, List.drop_left, hc, if_true, htw]
+    simp only [hsemi, Bool.false_eq_true, if_false, hkey, hne2, List.drop_left, hc, if_true, htw]
     simp [hcs]
 
-theorem visit_rendered (ps : List Param) (trail : Bytes) (hps : ∀ p ∈ ps, p.strict) (ht : spOnly trail = true) :
-    ∀ fuel, (renderParams ps ++ trail).length < fuel → visitFuel fuel (renderParams ps ++ trail) = visitedPairs ps := by
+theorem dropWhile_all {p : Nat → Bool} (s : Bytes) (h : s.all p = true) : s.dropWhile p = [] := by
+  have := dropWhile_prefix (p := p) s [] h
+  simpa using this
+
+/-- after optional whitespace, a non-empty parameter list starts with its `;` -/
+theorem more_semi (p2 : Param) (ps2 : List Param) (trail : Bytes) (hp2 : p2.strict) :
+    ((renderParams (p2 :: ps2) ++ trail).dropWhile isOWSb).head? = some 59 := by
+  rw [renderParams_cons]
+  unfold renderParam
+  simp only [List.append_assoc]
+  rw [dropWhile_prefix _ _ (owsOnly_all hp2.2.1)]
+  simp [List.dropWhile_cons, show isOWSb 59 = false by decide]
+
+theorem visit_rendered (ps : List Param) (trail : Bytes) (hps : ∀ p ∈ ps, p.strict) (ht : owsOnly trail = true) :
+    ∀ fuel, (renderParams ps ++ trail).length < fuel → scanFuel fuel (renderParams ps ++ trail) = visitedPairs ps := by
   induction ps with
   | nil =>
     intro fuel hf
     cases fuel with
     | zero => omega
-    | succ f => simp [renderParams, visitFuel, visitStep, afterSemi_none _ ht, visitedPairs]
+    | succ f => simp [renderParams, scanFuel, scanStep, afterSemi_none _ ht, visitedPairs]
   | cons p ps ih =>
     intro fuel hf
     have hp := hps p (by simp)
@@ -271,19 +292,33 @@ theorem visit_rendered (ps : List Param) (trail : Bytes) (hps : ∀ p ∈ ps, p.
     | zero => omega
     | succ f =>
       rw [renderParams_cons, List.append_assoc] at hf ⊢
-      simp only [visitFuel, visitedPairs]
+      have hpos : 1 ≤ (renderParam p).length := by
+        unfold renderParam; simp only [List.length_append, List.length_cons, List.length_nil]; omega
+      have hf' : (renderParams ps ++ trail).length < f := by
+        simp only [List.length_append] at hf ⊢; omega
+      simp only [scanFuel, visitedPairs]
       by_cases hn : p.name = []
-      · rw [visitStep_empty p _ hp hn (more_noKey ps trail hps' ht)]
-        simp [hn]
+      · have hn' : (p.name == []) = true := by simp [hn]
+        simp only [hn', if_true]
+        cases hpsc : ps with
+        | nil =>
+          have hmore : (renderParams [] ++ trail).dropWhile isOWSb = [] := by
+            simpa [renderParams] using dropWhile_all trail (owsOnly_all ht)
+          rw [scanStep_empty_last p _ hp hn hmore]
+          simp [visitedPairs]
+        | cons p2 ps2 =>
+          have hp2 : p2.strict := hps' p2 (by rw [hpsc]; simp)
+          rw [scanStep_empty_more p _ hp hn (more_semi p2 ps2 trail hp2)]
+          simp only
+          rw [scanFuel_dropOWS, ← hpsc]
+          exact ih hps' f hf'
       · have hn' : (p.name == []) = false := by simpa using hn
-        rw [visitStep_param p _ hp hn (more_head ps trail hps' ht)]
+        rw [scanStep_param p _ hp hn (more_head ps trail hps' ht)]
         simp only [hn', Bool.false_eq_true, if_false]
-        have hpos : 1 ≤ (renderParam p).length := by
-          unfold renderParam; simp only [List.length_append, List.length_cons, List.length_nil]; omega
-        rw [ih hps' f (by simp only [List.length_append] at hf ⊢; omega)]
+        rw [ih hps' f hf']
 
-theorem visitParams_rendered (ps : List Param) (trail : Bytes) (hps : ∀ p ∈ ps, p.strict) (ht : spOnly trail = true) :
-    visitParams (renderParams ps ++ trail) = visitedPairs ps :=
+theorem scanParams_rendered (ps : List Param) (trail : Bytes) (hps : ∀ p ∈ ps, p.strict) (ht : owsOnly trail = true) :
+    scanParams (renderParams ps ++ trail) = visitedPairs ps :=
   visit_rendered ps trail hps ht _ (Nat.lt_succ_self _)
 
 end C09
